@@ -214,6 +214,124 @@ def check_selection_building(res, E, SR):
     return n
 
 
+def check_source_array(res, E, chain_len):
+    """ExtendedJson::payload_info writes the per-item "source" array: for every chain of 0..chain_len sources (each a
+    published object or a local exception, every optional field present or absent) the written text - placeholders
+    replaced by a digit - must be the comma-separated content of a JSON array with one element per source."""
+    import json as _json
+    from c18 import _rust_bytes, _decode_template
+    body = E.prog.find(F, "ExtendedJson", "payload_info")
+    res.functions.append("output::ExtendedJson::payload_info (MIR): text of the per-item source array, chains of up to %d sources" % chain_len)
+    kinds = [z3.Int("source_%d_is_exception" % i) for i in range(chain_len)]
+    n_src = z3.Int("n_sources")
+    E.solver.add(n_src >= 0, n_src <= chain_len)
+    for k in kinds:
+        E.solver.add(z3.Or(k == 0, k == 1))
+
+    def tok(st, frame, text):
+        st.events.append(mir.Event("TXT", [text], None, (frame["body"].name, ""), "tok"))
+
+    def m_into_iter(E_, st, frame, callee, argvals, dest_ty):
+        return {("pos",): z3.IntVal(0)}
+
+    def m_next(E_, st, frame, callee, argvals, dest_ty):
+        r = argvals[0].get(())
+        if not isinstance(r, mir.Ref):
+            return NotImplemented
+        cur = E_.load(st, r.loc)
+        if ("pos",) not in cur:
+            return NotImplemented
+        pos = cur[("pos",)].as_long()
+        if pos >= chain_len:
+            return {("disc",): z3.IntVal(0)}
+        E_.store(st, r.loc, {("pos",): z3.IntVal(pos + 1)})
+        st.events.append(mir.Event("SRC", [pos], None, (frame["body"].name, ""), "tok"))
+        return {("disc",): z3.If(pos < n_src, z3.IntVal(1), z3.IntVal(0)),
+                (("v", "Some"), ("f", 0), "srcno"): z3.IntVal(pos)}
+
+    def which(v):
+        x = v.get(("srcno",))
+        return x.as_long() if x is not None else None
+
+    def m_publish(E_, st, frame, callee, argvals, dest_ty):
+        i = which(argvals[0])
+        if i is None:
+            return NotImplemented
+        return {("disc",): z3.If(kinds[i] == 0, z3.IntVal(1), z3.IntVal(0)), (("v", "Some"), ("f", 0)): mir.Opq("&PublishInfo", "pub%d" % i)}
+
+    def m_exception(E_, st, frame, callee, argvals, dest_ty):
+        i = which(argvals[0])
+        if i is None:
+            return NotImplemented
+        return {("disc",): z3.If(kinds[i] == 1, z3.IntVal(1), z3.IntVal(0)), (("v", "Some"), ("f", 0)): mir.Opq("&ExceptionInfo", "exc%d" % i)}
+
+    def m_argument(E_, st, frame, callee, argvals, dest_ty):
+        return {("akind",): mir.Str("arg")}
+
+    def m_arguments(E_, st, frame, callee, argvals, dest_ty):
+        return {("tmpl",): argvals[0].get(())}
+
+    def m_arguments_str(E_, st, frame, callee, argvals, dest_ty):
+        return {("fromstr",): argvals[0].get(())}
+
+    def m_write_fmt(E_, st, frame, callee, argvals, dest_ty):
+        a = argvals[1]
+        try:
+            if isinstance(a.get(("fromstr",)), mir.Str):
+                text = _rust_bytes(a[("fromstr",)].s)
+            elif isinstance(a.get(("tmpl",)), mir.Str):
+                text = b"".join(p_[1] if p_[0] == "lit" else b"0" for p_ in _decode_template(_rust_bytes(a[("tmpl",)].s)))
+            else:
+                return NotImplemented
+        except Exception:
+            return NotImplemented
+        tok(st, frame, text.decode("utf-8", "replace"))
+        return {("disc",): z3.IntVal(0), (("v", "Ok"), ("f", 0)): mir.Str("()")}
+
+    paths = E.explore(body, max_visits=chain_len + 2, nomut=[r"."], max_paths=100000, models={
+        r"^<&PayloadInfo as IntoIterator>::into_iter$": m_into_iter,
+        r"^<PayloadInfoIter<'_> as Iterator>::next$": m_next,
+        r"PayloadInfo::publish_info$": m_publish, r"PayloadInfo::exception_info$": m_exception,
+        r"^core::fmt::rt::Argument::<'_>::new_": m_argument, r"^Arguments::<'_>::new::<": m_arguments,
+        r"^Arguments::<'_>::from_str$": m_arguments_str,
+        r"^<impl (std::)?io::Write as (std::)?io::Write>::write_fmt$": m_write_fmt,
+    })
+    n = 0
+    shapes = set()
+    for i, p in enumerate(paths):
+        if p.kind == "bound":
+            if E.feasible(p.cond):
+                res.inconclusive.append("payload_info: a path exceeds the chain bound")
+            continue
+        if p.kind != "return":
+            continue
+        d = p.ret.get(("disc",))
+        if d is None or not E.feasible(p.cond, d == 0):
+            continue
+        mdl = E.model(p.cond)
+        nn = mdl.eval(n_src, True).as_long()
+        text = "".join(e.args[0] for e in p.events if e.kind == "tok" and e.name == "TXT")
+        n += 1
+        shapes.add(text)
+        try:
+            arr = _json.loads("[" + text + "]")
+            good = isinstance(arr, list) and len(arr) == nn and all(isinstance(x, dict) and "type" in x for x in arr)
+            why = "" if good else "it has %d elements for %d sources" % (len(arr), nn)
+        except ValueError as ex:
+            good, why = False, str(ex)
+        if not good and not any(v["key"] == "mir:jsonext-source-array" for v in res.violations):
+            ks = ["exception" if mdl.eval(kinds[k], True).as_long() else "published object" for k in range(nn)]
+            fn = mprop.write_cex(res, "source_array_%d" % i, p, E,
+                                 "sources %s: payload_info writes `%s`, which is not the content of a JSON array with one object per source (%s)"
+                                 % (ks, text[:400], why), mdl)
+            res.violation("mir:jsonext-source-array",
+                          "the jsonext \"source\" array is malformed for an item with the sources %s: `[%s]` (%s)" % (ks, text[:200], why), fn)
+    res.samples.append({"function": "ExtendedJson::payload_info", "paths_checked": n, "distinct_texts": len(shapes)})
+    res.distinct += len(shapes)
+    if n < 4:
+        res.inconclusive.append("vacuity: payload_info paths=%d" % n)
+
+
 def check_json_escaping(res, E):
     """In the JSON-family formatters every string that comes from data (trust-anchor name, path, comment) is
     passed through json_str before it is formatted."""
@@ -284,6 +402,7 @@ def run(res, tier):
     res.extra.setdefault("source_files_sha256", {}).update(mprop.source_hashes([F, "src/utils/json.rs"]))
     check_selection(res, E)
     check_json_escaping(res, E)
+    check_source_array(res, E, 2 if tier == "quick" else 3)
     res.bounds.append("selection: one rule vs one item with symbolic ASNs, opaque prefixes and an uninterpreted `covers` relation; "
                       "rule lists of up to 2 rules; JSON formatters: every path of every item writer of Json, ExtendedJson, Slurm, Slurm2")
     res.assumptions += ["Prefix::covers is rpki-rs's containment test (checked against integers under C20)",
